@@ -79,6 +79,7 @@ extern "C" void proof_copy() {
   uint8_t ans[2][32] = {};
   Slot s1; g_run = 0; g_pos = 0; Instance* a = construct(s1);
   a->update();
+  if (VD_SCRIPT != 3)     // (script 3 has two callbacks issue requests in the next step: with a queued one that exceeds the queue capacity of 2 - listed finding KF-C11-queue-overrun)
   a->changeTo((StateID) (1 + (VD_SCRIPT + 2) % 5));              // a request queued from outside is still pending when the copy is taken: the copy must carry it
   const unsigned pos_at_copy = g_pos, len_at_copy = g_len[0];
   Slot s2; Instance* b = new (&s2.fsm) Instance(*a);              // copy
